@@ -183,7 +183,7 @@ def draw_dialect_spec(rng, tag):
 # A. histories
 # ----------------------------------------------------------------------------------------
 
-FIELD_KINDS = ["date", "int", "optint", "alias", "nt", "list", "inner", "plain", "bytes", "datetime"]
+FIELD_KINDS = ["date", "int", "optint", "alias", "nt", "list", "inner", "plain", "bytes", "datetime", "gen"]
 MIXIN_SLOTS = {
     "dict": [("dict", False), ("dict", True)],
     "orjson": [("dict", False), ("dict", True), ("jsonb", False), ("json", True)],
@@ -261,6 +261,22 @@ class Family:
         return self._N
 
     @property
+    def G(self):
+        """a generic nested class that opts in: fields typed G[date] use its specialised methods"""
+        if getattr(self, "_G", None) is None:
+            import types
+            import typing
+
+            Tg = typing.TypeVar("Tg")
+            name = f"G_{self.uid}"
+            cfgcls = type("Config", (self.BaseConfig,), self._ncfg)
+            g = types.new_class(name, (self.mixin, typing.Generic[Tg]), {}, lambda ns: ns.update({"__annotations__": {"x": Tg}, "__module__": __name__, "Config": cfgcls}))
+            globals()[name] = g
+            _made.append(name)
+            self._G = dataclasses.dataclass(g)
+        return self._G
+
+    @property
     def P(self):
         if self._P is None:
             self._P = mk(f"P_{self.uid}", (self.mixin,), {"__annotations__": {"d": datetime.date, "o": Optional[int]}, "o": None})
@@ -314,6 +330,8 @@ class Family:
                 ann[f] = self.N
             elif kind == "plain":
                 ann[f] = self.P
+            elif kind == "gen":
+                ann[f] = self.G[datetime.date]
         ns["__annotations__"] = ann
         if spec["parent"] is None:
             bases = (self.mixin,)
@@ -365,6 +383,8 @@ class Family:
                     kw[f] = self.N(d=datetime.date(2021, 2, 3), o=rng.choice([None, 1]))
                 elif kind == "plain":
                     kw[f] = self.P(d=datetime.date(2022, 3, 4), o=rng.choice([None, 1]))
+                elif kind == "gen":
+                    kw[f] = self.G(x=datetime.date(2023, 4, 5))
             j = spec["parent"]
         return self.cls[i](**kw)
 
